@@ -80,7 +80,7 @@ Proof. induction l as [|h t IH]; [reflexivity|]. cbn [app]. destruct (t ++ [a]) 
 Definition m_first (regs : list nat) (m : mact) : mact :=
   if mfirst m then m
   else {| mk := mk m; mrel := mrel m; mcanc := mcanc m; mreg := mreg m; mfirst := true; mgranted := mgranted m;
-          mblk := if N.eqb (mk m) 0 then regs else [] |}.
+          mblk := if N.eqb (mk m) 0 || N.eqb (mk m) 2 then regs else [] |}.
 Definition m_canc (m : mact) : mact :=
   {| mk := mk m; mrel := mrel m; mcanc := true; mreg := mreg m; mfirst := mfirst m; mgranted := mgranted m; mblk := mblk m |}.
 Definition m_rel (m : mact) : mact :=
@@ -116,7 +116,7 @@ Definition p_blockedR (p : mact * N) : bool := let (m, c) := p in N.eqb (mk m) 0
 Definition p_blockedW (p : mact * N) : bool := let (m, c) := p in N.eqb (mk m) 1 && N.eqb c 2.
 Definition p_canc (p : mact * N) : bool := let (m, c) := p in mcanc m && N.eqb c 2.
 Definition p_pref (p : mact * N) : bool :=
-  let (m, c) := p in N.eqb (mk m) 0 && N.eqb c 3 && negb (mgranted m) && negb (match mblk m with [] => true | _ => false end).
+  let (m, c) := p in (N.eqb (mk m) 0 || N.eqb (mk m) 2) && N.eqb c 3 && negb (mgranted m) && negb (match mblk m with [] => true | _ => false end).
 
 Definition mon_post (ml1 : list mact) (o : list N) : list mact * list (nat * nat) :=
   let ml2 := map f_reg (combine ml1 o) in
@@ -184,11 +184,11 @@ Definition Q1 (nw : Prop) (m : mact) (d : desc) : Prop :=
   (mreg m = true -> dk d = 1%N -> dc d <> 3%N -> dc d <> 4%N -> dw d = true) /\
   (dk d = 1%N -> dc d = 2%N -> dw d = true) /\
   (mgranted m = true -> dc d = 3%N) /\
-  (mgranted m = false -> dk d = 0%N -> dc d = 3%N -> nw).
+  (mgranted m = false -> d_isr d = true -> dc d = 3%N -> nw).
 
 Definition Q2 (nw : Prop) (m : mact) (d : desc) : Prop :=
   mk m = dk d /\ mrel m = drel d /\ mcanc m = dcanc d /\ (mreg m = true -> dw d = true) /\
-  (mgranted m = true -> dc d = 3%N) /\ (mgranted m = false -> dk d = 0%N -> dc d = 3%N -> nw).
+  (mgranted m = true -> dc d = 3%N) /\ (mgranted m = false -> d_isr d = true -> dc d = 3%N -> nw).
 
 Definition Q3 (ds : list desc) (m : mact) (d : desc) : Prop :=
   Q2 (nowait ds) m d /\ forall j, In j (mblk m) -> exists d', nth_error ds j = Some d' /\ dw d' = true.
@@ -239,7 +239,7 @@ Proof.
   assert (Epf : existsb p_pref (combine ml3 (map dc ds)) = false).
   { rewrite (existsb_combine_eq (Q3 ds) p_pref dc (fun _ => false) ml3 ds H3); [apply existsb_false_const|].
     intros a d ((Hk & _ & _ & _ & _ & Hg0) & Hblk). unfold p_pref. rewrite Hk.
-    destruct (N.eqb_spec (dk d) 0) as [E0|E0]; [|reflexivity].
+    destruct (N.eqb (dk d) 0 || N.eqb (dk d) 2) eqn:E0; [|reflexivity].
     destruct (N.eqb_spec (dc d) 3) as [E3|E3]; [|reflexivity].
     destruct (mgranted a) eqn:Eg; [reflexivity|]. cbn [andb negb].
     destruct (mblk a) as [|j r] eqn:Eb; [reflexivity|]. exfalso.
